@@ -590,3 +590,27 @@ Proof.
     unfold from_basic_rotation_id. rewrite rot_lookup_none; [reflexivity|].
     intros Hin. specialize (K2 _ Hin). apply N.ltb_lt in K2. lia.
 Qed.
+
+(* ================================================================ sortedness as BTreeMap iteration gives it:
+   consecutive names strictly increasing is enough (the order is transitive) *)
+Fixpoint amap_adj_sorted (m : amap) : bool :=
+  match m with
+  | [] => true
+  | (k, _) :: r => match r with [] => true | (k', _) :: _ => bytes_ltb k k' && amap_adj_sorted r end
+  end.
+
+Lemma adj_sorted_strong m : amap_adj_sorted m = true -> amap_sorted m = true.
+Proof.
+  induction m as [|[k v] r IH]; [reflexivity|]. destruct r as [|[k' v'] r']; [reflexivity|].
+  cbn [amap_adj_sorted]. intros H. apply andb_true_iff in H. destruct H as [Hk Hr]. specialize (IH Hr).
+  cbn [amap_sorted] in IH |- *. apply andb_true_iff in IH. destruct IH as [Hall Hs].
+  cbn [forallb fst]. rewrite Hk, Hall, Hs. cbn [andb]. rewrite andb_true_r.
+  apply forallb_forall. intros e He. rewrite forallb_forall in Hall. apply (bytes_ltb_trans k k' (fst e) Hk (Hall e He)).
+Qed.
+
+Corollary attr_roundtrip_adj m b :
+  len32 m = true -> amap_adj_sorted m = true -> forallb wf_entry m = true ->
+  attr_encode m = Ok b -> attr_decode b = Ok (norm m).
+Proof.
+  intros Hl Hs He. apply attr_roundtrip. unfold wf_amap. now rewrite Hl, (adj_sorted_strong _ Hs), He.
+Qed.
